@@ -2,8 +2,6 @@ package c17
 
 import (
 	"github.com/database64128/shadowsocks-go/dns"
-
-	"verif/core"
 )
 
 type resolverAPI = *dns.Resolver
@@ -229,5 +227,3 @@ func (g *gen) viaTCP() *script {
 	sc.TCP[0].Term = "close"
 	return sc
 }
-
-func shuffled(r *core.RNG, n int) []int { return r.Perm(n) }
